@@ -1107,6 +1107,15 @@ fn all_cuts_run(cx: &mut Ctx, bytes: &[u8], kind: &str) {
         let parts: Vec<Seg> = bytes.iter().map(|b| Seg::Bytes(vec![*b])).collect();
         c11_run(cx, &parts, kind);
     }
+    // every 3-way split of short strings (a middle chunk that neither starts nor ends a sequence)
+    if bytes.len() >= 2 && bytes.len() <= 9 {
+        for i in 0..=bytes.len() {
+            for j in i..=bytes.len() {
+                let parts = gen::cut_bytes(bytes, &[i, j]);
+                c11_run(cx, &parts.into_iter().map(Seg::Bytes).collect::<Vec<_>>(), kind);
+            }
+        }
+    }
 }
 
 impl Check for C11Check {
@@ -1167,7 +1176,7 @@ impl Check for C11Check {
             }
         }
         if complete {
-            cx.stats.exhaustive_parts.insert(format!("all byte strings of length <= {} over a 24-byte class alphabet and {} boundary/ill-formed forms in 4 contexts, each whole, at every 2-way cut and byte-at-a-time", maxlen, forms.len()));
+            cx.stats.exhaustive_parts.insert(format!("all byte strings of length <= {} over a 24-byte class alphabet and {} boundary/ill-formed forms in 4 contexts, each whole, at every 2-way cut, every 3-way cut (strings <= 9 bytes) and byte-at-a-time", maxlen, forms.len()));
         }
         while !cx.out_of_time() {
             if !cx.begin_group("random bytes") {
@@ -1349,6 +1358,15 @@ fn c02_stream(cx: &mut Ctx, c: u32, l: u32, mode: Mode, stream: &[u8], every_cut
             let k = *cx.rng.pick(&positions);
             c02_pair(cx, c, l, mode, stream, &[k], &whole, kind);
         }
+    }
+    // every 3-way split of very short streams (state left by the middle chunk)
+    if every_cut && positions.len() <= 26 {
+        for i in 0..positions.len() {
+            for j in i..positions.len() {
+                c02_pair(cx, c, l, mode, stream, &[positions[i], positions[j]], &whole, kind);
+            }
+        }
+        cx.stats.count("streams_with_every_3way_cut", 1);
     }
     // unit at a time
     if positions.len() > 2 && positions.len() < 3000 {
